@@ -230,7 +230,7 @@ func effectOf(body []ast.Stmt) string {
 // typeChoice reads `if variadic >= 0 && i+rcvrOffset >= variadic { X = funcType.In(variadic)[.Elem()] } else { X = funcType.In(…) }`.
 func typeChoice(root ast.Node, lhs string) (cmp string, elem string, spread string) {
 	spread = "false"
-	// since 0b75d2f: `switch { case n.action == aCallSlice && i+rcvrOffset == variadic: X = funcType.In(variadic);
+	// since 57dd9e4: `switch { case n.action == aCallSlice && i+rcvrOffset == variadic: X = funcType.In(variadic);
 	// case variadic >= 0 && i+rcvrOffset >= variadic: X = …Elem(); default: X = funcType.In(i + rcvrOffset) }`
 	if sw := find(root, func(n ast.Node) bool {
 		s, ok := n.(*ast.SwitchStmt)
@@ -661,7 +661,7 @@ func main() {
 			}
 		}
 		// host method values (getIndexBinMethod, getIndexBinElemMethod): `bindRecv(…).Method(m)` binds a copy of an addressable
-		// receiver when the method value is evaluated (5c3ec57); before, `value(f).Method(m)` kept the address of the variable
+		// receiver when the method value is evaluated (ab0ab0c); before, `value(f).Method(m)` kept the address of the variable
 		hostBind, bindCopies := "false", "false"
 		{
 			total, bound := 0, 0
@@ -1188,7 +1188,7 @@ func main() {
 		ifaceHeld := "false"
 		gi := common.FindFunc(f, "", "genInterfaceWrapperValue")
 		if gi == nil {
-			gi = common.FindFunc(f, "", "genInterfaceWrapper") // before ccca582
+			gi = common.FindFunc(f, "", "genInterfaceWrapper") // before bbd3913
 		} else if gw0 := common.FindFunc(f, "", "genInterfaceWrapper"); gw0 == nil || len(gw0.Body.List) != 1 ||
 			nospace(str(gw0.Body.List[0])) != "returngenInterfaceWrapperValue(n,typ,genValue(n))" {
 			note("genInterfaceWrapper is not `return genInterfaceWrapperValue(n, typ, genValue(n))`")
